@@ -164,6 +164,8 @@ def case_direction(case):
                         break
             if why:
                 wit = None
+                if m is None:
+                    r_, m = c.check(label='witness')
                 if m is not None:
                     wd = dict(center=cen, a=a, b=b, dmin=dm, wl0=wl[0],
                               wl1=wl[1], max_buffer=mb)
